@@ -46,7 +46,7 @@ EXHAUSTIVE_SUBSPACES = {
 
 TIERS = {
     "quick": dict(nshards=16, sys_stride=1, random_bodies=60, three_way_max=72, zone3_max=160, rand_splits=20, parser_full_max=400),
-    "thorough": dict(nshards=64, sys_stride=1, random_bodies=700, three_way_max=120, zone3_max=260, rand_splits=200, parser_full_max=900),
+    "thorough": dict(nshards=64, sys_stride=1, random_bodies=380, three_way_max=120, zone3_max=260, rand_splits=200, parser_full_max=900),
 }
 
 
